@@ -146,11 +146,17 @@ def drive(recipe):
         _read(t, text)
     elif k == "shift":
         c, kv, noise, route = recipe["c"], recipe["kv"], recipe["noise"], recipe["route"]
-        t = {"k": k, "c": c, "kv": kv, "noise": noise, "route": route, "exc": "", "code": -1, "text": "",
+        t = {"k": k, "c": c, "kv": kv, "kv12": recipe.get("kv12", [0, 0, 0]), "noise": noise, "route": route, "exc": "", "code": -1, "text": "",
              "eq": False, "hasheq": False, "isid": False}
         try:
             base = SymmetryOperation.from_integer_code(c)
-            delta = np.array(kv, dtype=float) + np.array(NOISE[noise], dtype=float)
+            # besides whole lattice vectors (and noise) the shift may contain twelfths (a centring vector, an origin shift): the
+            # result is then another operation, the one the specification computes (Shift)
+            kv12 = recipe.get("kv12", [0, 0, 0])
+            sign = -1 if route in ("sub", "isub") else 1
+            from harness.c02 import _shift as _shift_code
+            base_shifted = SymmetryOperation.from_integer_code(_shift_code(c, [sign * x for x in kv12]))
+            delta = np.array(kv, dtype=float) + np.array(NOISE[noise], dtype=float) + np.array(kv12, dtype=float) / 12.0
             if route == "func":
                 # the module-level encoders on the raw matrix form (translation outside [0, 1), e.g. x-1/2 or t - n)
                 from chmpy.crystal.symmetry_operation import encode_symm_int, encode_symm_str, decode_symm_int, decode_symm_str
@@ -162,27 +168,39 @@ def drive(recipe):
                 r3, t3 = decode_symm_str(encode_symm_str(rot, tr))
                 op = SymmetryOperation(np.array(r2), np.array(t2))
                 op3 = SymmetryOperation(np.array(r3), np.array(t3))
-                ref = base
+                ref = base_shifted
                 t["code"], t["text"] = code, text
                 t["eq"] = bool(op == ref and op3 == ref and int(op.integer_code) == code == int(op3.integer_code))
                 t["hasheq"] = bool(hash(op) == hash(ref) == hash(op3))
                 t["isid"] = bool(op.is_identity()) and bool(op3.is_identity()) if c == 16484 else bool(op.is_identity() or op3.is_identity())
                 raise StopIteration
+            delta0 = delta.copy()
             if route == "ctor":
                 op = SymmetryOperation(np.array(base.rotation), np.array(base.translation) + delta)
-                ref = base
+                ref = base_shifted
             elif route == "add":
-                op, ref = base + delta, base
+                op, ref = base + delta, base_shifted
             elif route == "sub":
-                op, ref = base - delta, base
+                op, ref = base - delta, base_shifted
+            elif route in ("iadd", "isub"):
+                # the augmented forms, on an operation whose packed integer, text and hash have been asked for already
+                op = SymmetryOperation.from_integer_code(c)
+                _ = (int(op.integer_code), str(op), hash(op), op == base, op.is_identity())
+                if route == "iadd":
+                    op += delta
+                else:
+                    op -= delta
+                ref = base_shifted
             else:
                 op = SymmetryOperation(np.array(base.rotation), np.array(base.translation) + delta).inverted()
-                ref = base.inverted()
+                ref = base_shifted.inverted()
             t["code"] = int(op.integer_code)
             t["text"] = str(op)
             t["eq"] = bool(op == ref)
             t["hasheq"] = bool(hash(op) == hash(ref))
             t["isid"] = bool(op.is_identity())
+            if not np.array_equal(delta, delta0):
+                t["exc"] = "ArgumentMutated"              # the caller's shift vector comes back untouched
         except StopIteration:
             pass
         except Exception as e:
@@ -326,11 +344,12 @@ def run(ctx):
     for _ in range(ctx.pick(3000, 60000)):
         c = rng.choice(nz) if rng.random() < 0.7 else rng.randrange(NCODES)
         recipes.append({"k": "shift", "c": c, "kv": [rng.randint(-3, 3) for _ in range(3)],
-                        "noise": rng.choice(list(NOISE)), "route": rng.choice(["ctor", "add", "sub", "inv", "func"])})
+                        "noise": rng.choice(list(NOISE)), "route": rng.choice(["ctor", "add", "sub", "inv", "func", "iadd", "isub"]),
+                        "kv12": rng.choice([[0, 0, 0], [0, 0, 0], [6, 6, 0], [0, 6, 6], [6, 6, 6], [8, 4, 4], [3, 0, 0], [rng.randint(0, 11) for _ in range(3)]])})
     # the identity and the pure centring translations, with every kind of noise and by every route
     for c in (16484, 16484 + 19683 * (6 * 144 + 6 * 12 + 6), 16484 + 19683 * (6 * 12 + 6), 16484 + 19683 * (8 * 144 + 4 * 12 + 4), 3198):
         for noise in NOISE:
-            for route in ("ctor", "add", "sub", "inv", "func"):
+            for route in ("ctor", "add", "sub", "inv", "func", "iadd", "isub"):
                 recipes.append({"k": "shift", "c": c, "kv": [rng.randint(-2, 2) for _ in range(3)], "noise": noise, "route": route})
     for _ in range(ctx.pick(600, 6000)):
         n = rng.choice([12, 24, 48])
@@ -349,6 +368,10 @@ def run(ctx):
                     cell[1] = cell[0]
                 if shape < 0.05:
                     cell[2] = cell[0]
+                if 0.1 <= shape < 0.2:
+                    # pseudo-cubic / pseudo-tetragonal: edges that agree to a few parts per million
+                    cell[1] = cell[0]
+                    cell[2] = cell[0] * (1.0 + rng.choice([3e-6, 7e-6, 2e-5]))
             elif shape < 0.4:
                 cell[3:] = [90.0, rng.uniform(91, 120), 90.0]
             elif shape < 0.5:
